@@ -362,3 +362,19 @@ def line_yields(codes, prob=0.3, seed=0, tool=4, name="verif-yield"):
             mon.free_tool_id(tool)
         except Exception:
             pass
+
+
+def reuse_address(old_id: int, template, tries: int = 20000, skip=("_t2_cache_token",)):
+    """A NEW object of template's class that lives at the address `old_id` (the address of an object that has just been
+    freed), carrying template's attributes - or None if the allocator did not hand the block out within `tries`
+    allocations.  CPython recycles the blocks of dead objects; which live object gets one is otherwise a lottery, and
+    caches keyed by `id()` are wrong exactly when it happens."""
+    cls = type(template)
+    held = []
+    for _ in range(tries):
+        c = cls.__new__(cls)
+        if id(c) == old_id:
+            c.__dict__.update({k: v for k, v in template.__dict__.items() if k not in skip})
+            return c
+        held.append(c)
+    return None
